@@ -421,6 +421,31 @@ func searchHandle(in []byte) []byte {
 					e7 = cur.Check()
 				}
 				judgeLookup(&res, &c, mode+".stepwise", text, cur, e7, &c.Node)
+				// the same lookup on a root that has already served lookups of earlier siblings (the lazily parsed
+				// prefix of each container on the way is non-empty): the answer may not depend on that history
+				if root2, err := newRoot(mode, nil, text); err == nil {
+					warmed := false
+					for k, stp := range c.Path {
+						if stp.IsKey || stp.I <= 0 {
+							continue
+						}
+						for j := 0; j < stp.I; j += 2 {
+							warm := append(append([]interface{}{}, args[:k]...), j)
+							if w := root2.GetByPath(warm...); w != nil {
+								w.Check()
+							}
+							warmed = true
+						}
+					}
+					if warmed {
+						n8 := root2.GetByPath(args...)
+						var e8 error
+						if n8 != nil {
+							e8 = n8.Check()
+						}
+						judgeLookup(&res, &c, mode+".GetByPath_after_earlier_siblings", text, n8, e8, &c.Node)
+					}
+				}
 			}
 			// Preorder events of the whole document
 			if len(c.Path) == 0 {
